@@ -197,6 +197,13 @@ func rewrite(c *fileCtx, path string, data []byte, mod string) ([]byte, error) {
 				if is.Name == nil {
 					is.Name = ast.NewIdent("rand")
 				}
+			case "os/signal":
+				if !strings.Contains(c.pkgRel, "verifharness") && !strings.Contains(c.pkgRel, "verifsim") {
+					is.Path.Value = strconv.Quote(mod + "/internal/verifsim/simsignal")
+					if is.Name == nil {
+						is.Name = ast.NewIdent("signal")
+					}
+				}
 			case "sync":
 				if !usesIdent(f, "sync") {
 					continue
